@@ -203,10 +203,18 @@ Fixpoint accepted_from (E : env) (st : pst) (i : nat) (ops : list op) : list (na
       if b then (i, o) :: accepted_from E st' (S i) r else accepted_from E st' (S i) r
   end.
 
-Fixpoint flags_from (E : env) (st : pst) (ops : list op) : list bool :=
+(* the slot of each entry in the writer's operations tree: None = no slot (skipped operation),
+   Some true = in state, Some false = not in state (rejected by PreProcess, or invalid) *)
+Definition slot_of (o : op) (b : bool) : option bool :=
+  match o with
+  | ONil => None
+  | _ => Some b
+  end.
+
+Fixpoint flags_from (E : env) (st : pst) (ops : list op) : list (option bool) :=
   match ops with
   | [] => []
-  | o :: r => let '(b, st') := step E st o in b :: flags_from E st' r
+  | o :: r => let '(b, st') := step E st o in slot_of o b :: flags_from E st' r
   end.
 
 Definition accepted (E : env) (ops : list op) : list (nat * op) := accepted_from E pst0 0 ops.
@@ -306,7 +314,7 @@ Definition close_policy (m : merged) : option N :=
 Definition sort_nat (l : list nat) : list nat := map N.to_nat (sort_by (fun x => x) (map N.of_nat l)).
 
 Record outcome := mkOutcome {
-  o_flags : list bool;                 (* per operation: in state? (false: rejected / ignored) *)
+  o_flags : list (option bool);        (* per entry: slot in the operations tree *)
   o_suf : option (Z * list node);
   o_cands : option (list cand);
   o_policy : option N;
@@ -315,7 +323,7 @@ Record outcome := mkOutcome {
   o_pol_ops : list nat
 }.
 
-Definition close_all (E : env) (flags : list bool) (m : merged) : outcome :=
+Definition close_all (E : env) (flags : list (option bool)) (m : merged) : outcome :=
   mkOutcome flags (close_suffrage E m) (close_cands E m) (close_policy m)
             (sort_nat (m_suf_ops m)) (sort_nat (m_cand_ops m)) (sort_nat (m_pol_ops m)).
 
@@ -354,7 +362,7 @@ Definition opt_eqb {A} (eqb : A -> A -> bool) (a b : option A) : bool :=
   end.
 
 Definition outcome_eqb (a b : outcome) : bool :=
-  list_eqb Bool.eqb (o_flags a) (o_flags b) &&
+  list_eqb (opt_eqb Bool.eqb) (o_flags a) (o_flags b) &&
   opt_eqb (fun x y => Z.eqb (fst x) (fst y) && list_eqb node_eqb (snd x) (snd y)) (o_suf a) (o_suf b) &&
   opt_eqb (list_eqb cand_eqb) (o_cands a) (o_cands b) &&
   opt_eqb N.eqb (o_policy a) (o_policy b) &&
